@@ -119,3 +119,33 @@ func vfC16NativeExpiry(e *vfEnd, inst *channelInstance, eff int64) {
 	time.Sleep(time.Duration(eff/4) + 250*time.Millisecond)
 	vfAssert(!present(), "a token is kept for more than 25% beyond its lifetime")
 }
+
+// C16 (requests around a renewal): while a renewal is in flight new requests are parked on the
+// channel's request locker; when the renewal finishes, every parked request goes on — not just
+// one of them. n callers wait, then the locker is released once.
+func VerifH_C16_LockerReleasesAll() {
+	l := newConditionLocker()
+	l.lock()
+	n := vfConcrete(vfInt("waiters", 1, 3))
+	done := make(chan int, n)
+	ready := make(chan int, n)
+	for i := 0; i < n; i++ {
+		go func(i int) {
+			ready <- i
+			l.waitIfLock()
+			done <- i
+		}(i)
+	}
+	for i := 0; i < n; i++ {
+		<-ready // the callers get to the locker before the renewal finishes
+	}
+	late := vfBool("lateCaller")
+	l.unlock()
+	if late {
+		l.waitIfLock() // a request that arrives after the renewal is not held at all
+	}
+	for i := 0; i < n; i++ {
+		<-done // a caller that stays parked for ever shows up as a deadlock
+	}
+	vfReach("released")
+}
